@@ -595,7 +595,7 @@ def repSendStart (w : World) (sid : Nat) (m : Msg) : World × FutSt × POut :=
 
 /-- `RouterSocket::send`, first poll -/
 def routerSendStart (w : World) (sid : Nat) (m : Msg) : World × FutSt × POut :=
-  if m.length ≤ 1 then (w, .done, .ready .panic)          -- `assert!(message.len() > 1)`
+  if m.length ≤ 1 then (w, .done, .ready (.err .other))   -- an error since fix D19 (was `assert!(message.len() > 1)`)
   else match routerOut m with
     | none => (w, .done, .ready .panic)
     | some (t, rest) =>
